@@ -17,7 +17,8 @@ from pyvc.parsers import ParserExec, split_fn, join_fn, find_hash, prefix_fn, to
 from pyvc.hlib import init_heap, emit, frame_goal
 from pyvc.solve import Obl, static, undecided
 from pyvc.runner import main
-from pyvc.source import NotFound
+from pyvc.source import NotFound, body_of
+from pyvc.xreal import X
 from contracts import wiring as W
 
 N_ = "contracts.parsing_native"
@@ -323,9 +324,186 @@ def verify_antecedent_load(run):
             run.add(Obl(f"{fq}/accepts_only_complete_tree{tag}", q.pc + str_distinct(), z3.And(gstart(e_) == 0, gcnt(e_) == nP(L)), fn=fq, meta={"replay": RP}))
 
 
+# ------------------------------------------------------------------------------------------------ Function.infix_to_postfix (parentheses)
+class ElemV:
+    """factory.objects.get(token): the registered element of that name, or None.  Abstract: is_elem / is_fn / is_op / prec / assoc of the token"""
+
+    def __init__(s, tok):
+        s.tok = tok
+
+
+class ObjectsV:
+    pass
+
+
+is_elem = z3.Function("is_element_name", Str, z3.BoolSort())
+is_fn = z3.Function("element_is_function", Str, z3.BoolSort())
+el_prec = z3.Function("element_precedence", Str, z3.IntSort())
+el_assoc = z3.Function("element_associativity", Str, z3.IntSort())
+cntp = z3.Function("count_open_parens", SeqStr, z3.IntSort())          # ghost: number of "(" tokens in a token list (recursive definition, unfolded at append/pop)
+dep = z3.Function("paren_depth", z3.IntSort(), z3.IntSort())           # ghost: #"(" - #")" among the first k tokens of the formula
+
+
+class InfixExec(ParserExec):
+    def ev_Attribute(s, p, e):
+        txt = ast.unparse(e)
+        if txt == "settings.factory_manager.function":
+            return "FUNCTION_FACTORY"
+        if txt == "factory.objects" and p.env.get("factory") == "FUNCTION_FACTORY":
+            return ObjectsV()
+        if isinstance(e.value, ast.Name) and isinstance(p.env.get(e.value.id), ElemV) or (isinstance(e.value, ast.Subscript) and False):
+            el = p.env[e.value.id]
+            s.oblige(f"safety/line{e.lineno - s.fn_line}:attribute `{e.attr}` of None", p, is_elem(el.tok))
+            if e.attr in ("precedence", "associativity"):
+                f = el_prec if e.attr == "precedence" else el_assoc
+                return Num(X(xr.F, xr.I0, z3.ToReal(f(el.tok))), False, True, True)
+        return super().ev_Attribute(p, e)
+
+    def ev_Call(s, p, e):
+        if ast.unparse(e.func) == "cls.format_infix":
+            return StrV(s.fresh(Str, "formatted"))              # contract of format_infix: returns some text (character level, outside the token domain)
+        return super().ev_Call(p, e)
+
+    def ev_Subscript(s, p, e):
+        if ast.unparse(e.value) == "factory.objects":
+            tok = s.unwrap("str", s.ev(p, e.slice))
+            s.oblige(f"safety/line{e.lineno - s.fn_line}:key present in factory.objects (no KeyError)", p, is_elem(tok))
+            return ElemV(tok)
+        return super().ev_Subscript(p, e)
+
+    def method_call(s, p, recv, meth, args, kwargs, node):
+        if isinstance(recv, ObjectsV) and meth == "get" and len(args) == 1:
+            return ElemV(s.unwrap("str", args[0]))
+        if isinstance(recv, ElemV) and meth in ("is_function", "is_operator") and not args:
+            s.oblige(f"safety/line{node.lineno - s.fn_line}:call `.{meth}` on None", p, is_elem(recv.tok))
+            return Bool(is_fn(recv.tok) if meth == "is_function" else z3.Not(is_fn(recv.tok)), False, True)
+        return super().method_call(p, recv, meth, args, kwargs, node)
+
+    def contains(s, p, item, coll, e):
+        if isinstance(coll, ObjectsV):
+            return is_elem(s.unwrap("str", item))
+        return super().contains(p, item, coll, e)
+
+    def truth(s, v, node, p=None):
+        if isinstance(v, ElemV):
+            return is_elem(v.tok)
+        return super().truth(v, node, p)
+
+    def havoc_value(s, v, hint):
+        if isinstance(v, ElemV):
+            return ElemV(z3.FreshConst(Str, hint))
+        return super().havoc_value(v, hint)
+
+    def merge(s, c, a, b, node):
+        if isinstance(a, ElemV) and isinstance(b, ElemV):
+            return ElemV(z3.If(c, a.tok, b.tok))
+        if isinstance(a, ElemV) or isinstance(b, ElemV):       # `element and element.is_function()`: only used as a condition - keep its truth value
+            return Bool(z3.If(c, s.truth(a, node), s.truth(b, node)), False, True)
+        return super().merge(c, a, b, node)
+
+    # ghost: unfold cntp where the stack changes
+    def on_append(s, name, cur, new, v):
+        if name != "stack":
+            return []
+        return [cntp(new) == cntp(cur) + z3.If(v == strc("("), 1, 0), cntp(new) >= 0, cntp(cur) >= 0]
+
+    def on_pop(s, name, cur, rest, top):
+        if name != "stack":
+            return []
+        return [cntp(cur) == cntp(rest) + z3.If(top == strc("("), 1, 0), cntp(rest) >= 0, cntp(cur) >= 0]
+
+
+def element_type_facts(run, src):
+    """static facts the proof uses about Function.Element and the registered names, read from the AST"""
+    fq = "term.Function.Element"
+    ok_enum, detail = False, ""
+    try:
+        members = [n.targets[0].id for n in src.cls("term", "Function.Element.Type").body if isinstance(n, ast.Assign) and isinstance(n.targets[0], ast.Name)]
+        f1 = ast.unparse(body_of(src.func("term", "Function.Element.is_function"))[0])
+        f2 = ast.unparse(body_of(src.func("term", "Function.Element.is_operator"))[0])
+        ok_enum = sorted(members) == ["Function", "Operator"] and f1 == "return self.type == Function.Element.Type.Function" and f2 == "return self.type == Function.Element.Type.Operator"
+        detail = f"Type members {members}; is_function: `{f1}`; is_operator: `{f2}`"
+    except NotFound as ex_:
+        detail = f"not found: {ex_}"
+    run.add(static(f"{fq}/an_element_is_a_function_or_an_operator", ok_enum, detail, fn=fq))
+    # no registered element is called "(", ")" or ","
+    names = []
+    for q in ("FunctionFactory._create_operators", "FunctionFactory._create_functions"):
+        try:
+            fn = src.func("factory", q)
+        except NotFound:
+            continue
+        for n in ast.walk(fn):
+            if isinstance(n, ast.Call) and ast.unparse(n.func).endswith("Function.Element") and n.args and isinstance(n.args[0], ast.Constant):
+                names.append(n.args[0].value)
+            if isinstance(n, ast.Call) and ast.unparse(n.func).endswith("Function.Element"):
+                for kw in n.keywords:
+                    if kw.arg == "name" and isinstance(kw.value, ast.Constant):
+                        names.append(kw.value.value)
+    bad = [x for x in names if x in ("(", ")", ",")]
+    run.add(static("factory.FunctionFactory/no_element_named_like_a_parenthesis", bool(names) and not bad, f"{len(names)} registered element names read from the AST; offending: {bad}", fn="factory.FunctionFactory"))
+
+
+def verify_infix_to_postfix(run):
+    src = run.src
+    fq = "term.Function.infix_to_postfix"
+    fn = src.func("term", "Function.infix_to_postfix")
+    run.under_contract("term", "Function.infix_to_postfix", fn)
+    element_type_facts(run, src)
+    sc = W.schema(src)
+    H0 = init_heap(sc)
+    OPEN, CLOSE, COMMA = strc("("), strc(")"), strc(",")
+    iS = z3.Int("i*")
+    facts0 = [z3.Not(is_elem(OPEN)), z3.Not(is_elem(CLOSE)), z3.Not(is_elem(COMMA)), dep(0) == 0, cntp(z3.Empty(SeqStr)) == 0]
+
+    def toks(ex_, p):
+        return split_fn(ex_.local(p, "formula").t)
+
+    def stack_of(ex_, p):
+        return ex_.local(p, "stack").q
+
+    def main_inv(ex_, p, k, seq):
+        st = stack_of(ex_, p)
+        return z3.And(cntp(st) == dep(k), cntp(st) >= 0, z3.Implies(z3.And(iS >= 0, iS <= k), dep(iS) >= 0))
+
+    def main_ghost(ex_, q, k, seq):
+        t = seq[k]
+        return [dep(k + 1) == dep(k) + z3.If(t == OPEN, 1, z3.If(t == CLOSE, -1, 0))]
+
+    def inner_inv(ex_, p, k, seq):          # the three inner `while` loops pop non-parenthesis tokens only: the count of "(" is unchanged
+        K = ex_.cur_k[0]
+        st = stack_of(ex_, p)
+        return z3.And(cntp(st) == dep(K), cntp(st) >= 0)
+
+    def final_inv(ex_, p, k, seq):
+        st = stack_of(ex_, p)
+        return z3.And(cntp(st) == dep(z3.Length(toks(ex_, p))), cntp(st) >= 0)
+
+    loops = {0: LoopSpec(main_inv, ghost=main_ghost, name="loop0.tokens"), 1: LoopSpec(inner_inv, name="loop1.comma"), 2: LoopSpec(inner_inv, name="loop2.operator"),
+             3: LoopSpec(inner_inv, name="loop3.close"), 4: LoopSpec(final_inv, name="loop4.flush")}
+    ex = InfixExec(src, "term", sc, contracts={}, interfaces=W.INTERFACES, inline=set(), loops=loops, fnname=fq)
+    formula = z3.Const("formula", Str)
+    outs = ex.run_fn(fn, HPath({"cls": "Function", "formula": StrV(formula)}, list(facts0), H0))
+    emit(run, ex, fq, [], RP)
+    n_ret = 0
+    for i, (kind, val, q) in enumerate(outs):
+        tag = f"[path{i}]"
+        if kind == "raise":
+            if val not in ALLOWED:      # any other exception type must be unreachable
+                run.add(Obl(f"{fq}/raises.no_{val}{tag}", q.pc + str_distinct(), z3.BoolVal(False), fn=fq, meta={"replay": RP}))
+            continue
+        n_ret += 1
+        n = z3.Length(toks(ex, q))
+        run.add(Obl(f"{fq}/accepts_only_balanced_parentheses{tag}", q.pc + str_distinct(), z3.And(dep(n) == 0, z3.Implies(z3.And(iS >= 0, iS <= n), dep(iS) >= 0)), fn=fq, meta={"replay": RP}))
+    run.add(static(f"{fq}/returns", n_ret > 0, f"{n_ret} returning path(s)", fn=fq))
+    kinds = sorted({val for kind, val, q in outs if kind == "raise"})
+    run.add(static(f"{fq}/raise_sites", "SyntaxError" in kinds, f"exception types at raise statements: {kinds} (types other than SyntaxError/ValueError are proved unreachable above)", fn=fq))
+
+
 def build(run):
     run.assume("A-STR", "A-PY", "A-MSG", "A-LOG", "A-LISTVAL", "A-FRESH")
-    plan = [("rule.Rule.parse", verify_rule_parse), ("rule.Consequent.load", verify_consequent_load), ("rule.Antecedent.load", verify_antecedent_load)]
+    plan = [("rule.Rule.parse", verify_rule_parse), ("rule.Consequent.load", verify_consequent_load), ("rule.Antecedent.load", verify_antecedent_load),
+            ("term.Function.infix_to_postfix", verify_infix_to_postfix)]
     for fq, f in plan:
         try:
             f(run)
